@@ -114,7 +114,7 @@ pub struct SimConsole {
     last_regs: [u16; 14],
     /// spin guard: consecutive prompt-level reads at EOF (a real run would never end)
     eof_prompt_reads: u32,
-    /// spin guard: records written since the last instruction or the last line of input
+    /// spin guard: bytes written since the last instruction or the last line of input
     recs_since_progress: u64,
     /// spin guard: service-level reads at end of input since the last instruction
     eof_service_reads: u32,
@@ -124,8 +124,11 @@ pub struct SimConsole {
     pending: [Vec<u8>; 2],
 }
 
-/// upper bound of the records one legitimate statement can write (a full 1 MiB dump), with margin
-pub const MAX_RECORDS_PER_STATEMENT: u64 = 1_300_000;
+/// upper bound of what one legitimate statement can write: a dump of the whole 1 MiB is about
+/// 4 bytes of text per byte of memory however it is cut into print! calls; 16 MiB leaves room for
+/// any layout. Counted in BYTES of output, not in records (a refactoring may write one record per
+/// dump or three per byte).
+pub const MAX_BYTES_PER_STATEMENT: u64 = 16 << 20;
 
 /// Payload used to stop a run that the simulator has proved will never end (EOF spin)
 pub struct SimSpin;
@@ -197,8 +200,8 @@ impl Console for SimConsole {
         // than that without a single instruction or input line in between is output without
         // progress: stop the run, the oracle sees no proper end
         // (before the record is logged, so that records and raw output stay in step)
-        self.recs_since_progress += 1;
-        if self.recs_since_progress > crate::world::MAX_RECORDS_PER_STATEMENT {
+        self.recs_since_progress += text.len() as u64;
+        if self.recs_since_progress > crate::world::MAX_BYTES_PER_STATEMENT {
             std::panic::resume_unwind(Box::new(SimSpin));
         }
         // a memory guard, not a verdict: very long histories end as "out of fuel"
@@ -214,8 +217,8 @@ impl Console for SimConsole {
 
     fn emit_err(&mut self, module: &'static str, line: u32, text: &str) {
         // stderr is unbuffered and not under fault injection; it shares the progress guard
-        self.recs_since_progress += 1;
-        if self.recs_since_progress > crate::world::MAX_RECORDS_PER_STATEMENT {
+        self.recs_since_progress += text.len() as u64;
+        if self.recs_since_progress > crate::world::MAX_BYTES_PER_STATEMENT {
             std::panic::resume_unwind(Box::new(SimSpin));
         }
         self.push(Event::Rec { origin: origin_of(module), line, text: text.to_owned(), err: true });
